@@ -31,8 +31,6 @@ impl<A: Actor> Spawner<A> for SmolSpawner {
         )))));
         log::trace!("spawning smol task");
 
-        let detach_handle = Arc::clone(&handle);
-
         ActorHandle::new(move || -> JoinFuture<A> {
             log::trace!("joining smol task");
             let handle = Arc::clone(&handle);
@@ -59,11 +57,10 @@ impl<A: Actor> Spawner<A> for SmolSpawner {
                 }
             })
         })
-        .with_detach_fn(move || {
-            log::trace!("detaching smol task");
-            // dropping the wrapper detaches the task
-            drop(detach_handle.lock_blocking().take());
-        })
+        // no detach function: the wrapper detaches the task as soon as the handle and every join
+        // future made from it are gone. Taking the task out of the slot here would make a join
+        // future that was created before `detach()` yield `None`, where tokio and async-std
+        // still hand out the actor.
     }
 
     fn spawn_future<F>(future: F)
